@@ -21,15 +21,18 @@ LEVEL_TEXT = ("Lean theorems about total executable models of all seven parsers 
               "over ALL byte strings and options is proved for the repaired FASTA, Stockholm, Nexus, Phylip and partition parsers "
               "(fasta_outcome_fixed, stockholm_outcome_fixed, nexus_outcome_fixed, phylip_outcome_fixed, partition_outcome, "
               "addRange_in_bounds for all 64-bit "
-              "start/end/modulo); likewise Clustal (clustal_outcome_fixed); the unrepaired code "
+              "start/end/modulo); likewise Clustal (clustal_outcome_fixed); a Phylip success agrees with the counts declared in "
+              "its header line (as read by the parser and as read by an independent naive scanner) and the end-of-stream marker "
+              "needs a blank input (phylip_outcome_full); a Nexus success agrees with ntax / nchar / the TAXA labels as the "
+              "parser read them (nexus_counts_as_read); ParseMultiple terminates on every input (phylip_multi_outcome); the unrepaired code "
               "is refuted by kernel-evaluated counter-examples. Models are tied to /repo by regenerated "
               "guard facts + differential correspondence on every generated input; the C03 predicate itself is evaluated "
               "by the compiled oracle on the implementation's outcome for every input.")
 LEVEL_NOTE = ("Trusted: Lean kernel; harness + python watchdog (hang = no answer within 3 s on inputs < 1 kB); the naive "
               "header scanners of Spec/Fmt.lean; tools/extract/fmtfacts.go (syntactic recognition of the guards); "
               "bufio/UTF-8 decoding (models are ASCII-only: non-ASCII inputs carry no correspondence obligation but are "
-              "still judged by the predicate). Header-count consistency and termination of the multi-Phylip "
-              "stream loop are checked on the implementation only: see evidence 'partial'.")
+              "still judged by the predicate). Agreement of the Nexus DIMENSIONS reading with the naive scanner is checked on the "
+              "implementation only: see evidence 'partial'.")
 TECHNIQUE = "Lean 4 proof (total parser models, container invariant by induction over token lists) + exhaustive-truncation / mutation differential run"
 LEAN_MODULES = ["Gv.Props.C03"]
 REQUIRED_THEOREMS = ["Gv.Props.C03." + n for n in [
@@ -42,7 +45,12 @@ REQUIRED_THEOREMS = ["Gv.Props.C03." + n for n in [
     "partition_counterexample_overflow_panic", "partition_patched_witness", "addRange_in_bounds", "newPSet_inv",
     "partition_outcome", "phylip_outcome_partial", "phylip_multi_wellformed", "clustal_outcome_partial",
     "nexus_outcome_partial", "clustal_no_panic", "phylip_no_panic", "nexus_no_panic", "nexus_outcome_fixed", "clustal_no_hang", "clustal_outcome_fixed_partial",
-    "phylip_no_hang", "phylip_outcome_fixed", "clustal_outcome_fixed"]]
+    "phylip_no_hang", "phylip_outcome_fixed", "clustal_outcome_fixed",
+    # consistency with the header counts / the end-of-stream marker (Proofs/PhylipHeader.lean)
+    "phylip_counts_as_read", "phylip_header_consistent", "phylip_eos_blank", "phylip_eos_blank_to_eof",
+    "phylip_multi_counts", "phylip_outcome_full", "phylip_multi_outcome",
+    # Nexus: counts of the DIMENSIONS commands / TAXA block as the parser read them (Proofs/NexusHeader.lean)
+    "nexus_counts_as_read", "nexus_header_consistent_partial", "nexus_header_counterexample_endblock"]]
 TRUSTED = ["bufio.Reader / UTF-8 rune decoding (inputs with bytes >= 128 are judged by the predicate only)",
            "python watchdog: hang = no answer within TIMEOUT",
            "tools/extract/fmtfacts.go: recognises the proposed guards syntactically; the models are parametric in these facts"]
@@ -65,9 +73,24 @@ PARTIAL = [
     "phylip_outcome_fixed (strict and relaxed), nexus_outcome_fixed, clustal_outcome_fixed, stockholm_outcome_fixed, "
     "partition_outcome (+ addRange_in_bounds); the unrepaired variants are covered by *_partial theorems and "
     "kernel-evaluated counter-examples",
-    "NOT proved, checked on the implementation by the oracle predicate on every run: consistency of a success with the "
-    "counts declared in the Phylip / Nexus header; 'blank up to EOF' for the Phylip end-of-stream marker; termination of "
-    "the multi-Phylip stream loop (every alignment it hands on is proved well formed: phylip_multi_wellformed)",
+    "consistency with the header counts, PROVED for the models over all byte strings and options: Phylip — a success went "
+    "through a header line `nbseq lenseq`, has exactly lenseq columns and nbseq rows (at most nbseq under a duplicate policy "
+    "that drops rows; the _%04d renaming never fails: pigeonhole), and these are the numbers the independent naive scanner "
+    "of Spec/Fmt.lean reads off the raw bytes (phylip_counts_as_read, phylip_header_consistent, phylip_multi_counts); the "
+    "end-of-stream marker is returned only for an input that is blank up to its first NUL / up to EOF (phylip_eos_blank, "
+    "phylip_eos_blank_to_eof); phylip_outcome_full combines them with the outcome statement. Nexus — a success has the "
+    "ntax rows / nchar columns of the DIMENSIONS commands as the parser read them and one row per TAXA label "
+    "(nexus_counts_as_read)",
+    "NOT proved: that the parser's reading of the Nexus DIMENSIONS commands equals what the naive textual scanner "
+    "`declaredNexus` reads off the raw bytes (two independent tokenisations; nexus_header_consistent_partial states the "
+    "clause under that hypothesis) — checked on the implementation by the oracle predicate on every run (the scanner now "
+    "skips the `#NEXUS` word, which has no `;`: before, it never saw the DATA block of an ordinary file and the clause was "
+    "vacuous). That hypothesis is NOT a theorem: nexus_header_counterexample_endblock (kernel-evaluated) — the parser does not know "
+    "ENDBLOCK, stays in the DATA block and lets a later `dimensions` overwrite ntax: `#NEXUS begin data; dimensions ntax=9; "
+    "endblock; begin trees; dimensions ntax=1; matrix a AC ; end;` succeeds with one row (reproduced on the built binary; not "
+    "produced by the generators, reported as a candidate finding). The multi-Phylip stream loop is now PROVED to terminate without panic / hang for the repaired code "
+    "(phylip_multi_outcome: every Parse call that hands on an alignment consumes input), every alignment it hands on being "
+    "well formed and consistent with its own header line (phylip_multi_wellformed, phylip_multi_counts)",
     "ParseAlignmentAuto: modelled as a first-byte dispatch over the single-parser models (C02.autodetect_selects_written_format)",
     "inputs with bytes >= 128 (UTF-8 decoding, incl. the repaired rune-index panic of strict Phylip names) and Phylip "
     "allocations of 2^27..2^44 entries (unrepaired code only): predicate only, no model",
